@@ -290,3 +290,80 @@ Definition c04_eval (toks : list (list N)) : list (list N) :=
     end
   | _ => REJECT_TOK
   end.
+
+(* ---------------- C15 ---------------- *)
+From TT Require Import Model.Socks5 Spec.Rfc1928.
+
+Fixpoint c15_vals (fuel : nat) (a : list N) : list (N * list N) :=
+  match fuel with
+  | O => []
+  | S f =>
+    match a with
+    | t :: h :: l :: rest =>
+      let n := h * 256 + l in (t, takeN n rest) :: c15_vals f (dropN n rest)
+    | _ => []
+    end
+  end.
+
+Definition c15_auth (k : N) (a b : list N) : s_auth :=
+  if k =? 0 then ANone else if k =? 1 then AUserPass a b else AExt (c15_vals (length a) a).
+
+Definition outcome_toks (o : s_outcome) : list N :=
+  match o with
+  | OTcp => [0; 0] | OFailure c => [1; c] | OIo => [2; 0] | OProtocol => [3; 0] | OAuth => [4; 0]
+  end.
+
+Definition c15_connect (toks : list (list N)) : list (list N) :=
+  match toks with
+  | [ak; dk; port] :: a :: b :: dest :: segs =>
+    let '(em, o) := connect (c15_auth ak a b) (if dk =? 3 then DDomain dest else DIp dest) port (concat segs) in
+    [outcome_toks o; concat (map em_bytes em)]
+  | _ => REJECT_TOK
+  end.
+
+(* spec oracle on the bytes the implementation wrote: can they be split into well-formed
+   messages (selection, then optionally authentication, then optionally request)?
+   in: [ak] client-bytes.  out: [1|0] *)
+Definition c15_wellformed (toks : list (list N)) : list (list N) :=
+  match toks with
+  | [ak] :: bytes_ :: _ =>
+    let sel_ok := match spec_selection (takeN 4 bytes_) with Some _ => true | None => false end in
+    let rest := dropN 4 bytes_ in
+    let req_ok (m : list N) := match spec_request m with Some _ => true | None => false end in
+    (* try every split point of rest into auth ++ request *)
+    let fix try_split (n : nat) : bool :=
+        let a := firstn n rest in
+        let r := skipn n rest in
+        let a_ok := is_nil a
+                    || (if ak =? 1 then match spec_userpass a with Some _ => true | None => false end
+                        else if ak =? 2 then match spec_ext a with Some _ => true | None => false end
+                        else false) in
+        let r_ok := is_nil r || req_ok r in
+        (a_ok && r_ok) || match n with O => false | S k => try_split k end in
+    [[if sel_ok && try_split (length rest) then 1 else 0]]
+  | _ => REJECT_TOK
+  end.
+
+Definition c15_udp (toks : list (list N)) : list (list N) :=
+  match toks with
+  | [1; port] :: ip :: rest => [udp_wrap ip port (match rest with d :: _ => d | [] => [] end)]
+  | [2; cap] :: rest =>
+    (* UdpSocket::recv into a buffer of 22 + cap bytes truncates the datagram (environment) *)
+    match udp_unwrap (takeN (22 + cap) (match rest with d :: _ => d | [] => [] end)) with
+    | Ok (ip, port, data) => [[1; lenN data; port]; ip; takeN cap data]
+    | Reject => [[0]]
+    | Panic => PANIC_TOK
+    | Fuel => FUEL_TOK
+    end
+  | _ => REJECT_TOK
+  end.
+
+Definition c15_make_auth (toks : list (list N)) : list (list N) :=
+  match toks with
+  | [k] :: v :: _ =>
+    if k =? 1 then
+      match make_auth_basic v with Some (u, p) => [[1]; u; p] | None => [[0]] end
+    else [[1]; v; v]
+  | [k] :: [] => if k =? 1 then [[0]] else [[1]; []; []]
+  | _ => REJECT_TOK
+  end.
